@@ -72,3 +72,36 @@ fn c30_predicate_storage_refuses_contract_state() {
     assert!(unsupported(StorageWrite::<BlobData>::write_bytes(&mut s, &bid, &buf)), "C30 blob write");
     assert!(unsupported(StorageMutate::<BlobData>::take(&mut s, &bid)), "C30 blob take");
 }
+
+//@ props=C30 tier=quick class=proved-fin timeout=900 -- default verifier, no input contracts: every contract id (all 2^256, including the zero id) is refused with ContractNotInInputs and the panic context names it
+#[kani::proof]
+#[kani::unwind(34)]
+fn c30_unlisted_contract_refused_empty_inputs() {
+    use crate::verification::{Normal, Verifier};
+    use crate::interpreter::PanicContext;
+    let id: [u8; 32] = kani::any();
+    let id = ContractId::from(id);
+    let inputs: alloc::collections::BTreeSet<ContractId> = alloc::collections::BTreeSet::new();
+    let mut ctx = PanicContext::None;
+    let r = Normal.check_contract_in_inputs(&mut ctx, &inputs, &id);
+    assert!(matches!(r, Err(crate::error::PanicOrBug::Panic(fuel_asm::PanicReason::ContractNotInInputs))), "C30 a contract that is not among the transaction's inputs is refused with ContractNotInInputs");
+    assert!(ctx == PanicContext::ContractId(id), "C30 the refusal names the contract");
+}
+
+//@ props=C30 tier=quick class=bounded(1-input-contract) timeout=900 -- default verifier, one input contract (symbolic id): accepted exactly when the requested id equals it; otherwise ContractNotInInputs
+#[kani::proof]
+#[kani::unwind(34)]
+fn c30_contract_in_inputs_iff_listed_one() {
+    use crate::verification::{Normal, Verifier};
+    use crate::interpreter::PanicContext;
+    let id: [u8; 32] = kani::any();
+    let listed: [u8; 32] = kani::any();
+    let (id, listed) = (ContractId::from(id), ContractId::from(listed));
+    let mut inputs: alloc::collections::BTreeSet<ContractId> = alloc::collections::BTreeSet::new();
+    inputs.insert(listed);
+    let mut ctx = PanicContext::None;
+    let r = Normal.check_contract_in_inputs(&mut ctx, &inputs, &id);
+    assert!(r.is_ok() == (id == listed), "C30 a contract is accepted exactly when it is among the transaction's inputs");
+    if id != listed { assert!(ctx == PanicContext::ContractId(id), "C30 the refusal names the contract"); }
+    core::mem::forget(inputs);
+}
